@@ -353,6 +353,8 @@ class HostileCtx(object):
         wc = World(cfg)
         for o in reach_ops(cfg, state):
             wc.apply(o)
+        if cfg.get("hqueue"):
+            wc.apply(["hqueue"] + list(cfg["hqueue"]))
         if wc.state() != want:
             self.stats["prefix_did_not_reach_state"] += 1
             self.account(wc)
@@ -372,6 +374,8 @@ class HostileCtx(object):
             wn = World(cfg)
             for o in reach_ops(cfg, "Established"):
                 wn.apply(o)
+            if cfg.get("hqueue"):
+                wn.apply(["hqueue"] + list(cfg["hqueue"]))
             if wn.state() == "ESTABLISHED":
                 self.ctl_next = []
                 for t in tail_hex:
@@ -387,6 +391,14 @@ class HostileCtx(object):
         self.nontrivial = True
         cid = w.conn(0).cid
         self.stats["bursts_in_" + state] += 1
+        if cfg.get("hqueue"):
+            # the application has a message queued for the peer (sent by yabgp on a later KEEPALIVE)
+            w.apply(["hqueue"] + list(cfg["hqueue"]))
+            self.stats["bursts_with_queued_application_message"] += 1
+        if cfg.get("hfail_at"):
+            # the application handler raises (storage full) at the n-th callback during the burst
+            w.apply(["hfail", cfg["hfail_at"]])
+            self.stats["bursts_with_handler_fault"] += 1
         kinds = []
         desync = False
 
@@ -464,6 +476,9 @@ class HostileCtx(object):
                     desync = True
                     self.stats["burst_desynchronised_stream"] += 1
                     break
+        if w.handler_fail_in is None and cfg.get("hfail_at"):
+            self.stats["handler_fault_fired_in_burst"] += 1
+        w.handler_fail_in = None        # the application's storage works again after the burst
         self.trace.append([state, kinds, bool(coalesce)])
         self.cells.add("%s/%s" % (state, kinds[-1] if kinds else "none"))
         # ---- known-good tail: decoding unchanged
@@ -716,8 +731,8 @@ class HostileProfile(BaseProfile):
             "as whole messages, UPDATE bodies, attribute values or NLRI -- and of reference encodings; random bodies; "
             "duplicated attributes / absurd length fields; occasionally a wrong header length) in OpenSent/OpenConfirm/"
             "Established, frame-per-chunk (75 %) or coalesced, then 1-3 known-good messages whose handler payloads are "
-            "compared with a control run -- in the same session if it survived, and (50 %) in the NEXT session once the agent has reconnected; 40 % of bursts also carry a known-good tail message early; 50 % of tails use an AS_PATH that is well formed under both AS-number widths; non-trivial = prefix reached the state; distinct = distinct (state, frame kinds)")
-    probes = ["next_session_tail_compared", "second_reconnect_after_refusal", "late_close_variants", "late_close_survived", "hostile_frame:UPDATE", "hostile_frame:OPEN", "hostile_frame:NOTIFICATION", "hostile_frame:ROUTE-REFRESH",
+            "compared with a control run (20 % of bursts: the application handler raises ENOSPC at its 1st-3rd callback during the burst; 15 %: the application has a message queued for the peer) -- in the same session if it survived, and (50 %) in the NEXT session once the agent has reconnected; 40 % of bursts also carry a known-good tail message early; 50 % of tails use an AS_PATH that is well formed under both AS-number widths; non-trivial = prefix reached the state; distinct = distinct (state, frame kinds)")
+    probes = ["handler_fault_fired_in_burst", "bursts_with_queued_application_message", "next_session_tail_compared", "second_reconnect_after_refusal", "late_close_variants", "late_close_survived", "hostile_frame:UPDATE", "hostile_frame:OPEN", "hostile_frame:NOTIFICATION", "hostile_frame:ROUTE-REFRESH",
               "hostile_frame:KEEPALIVE", "hostile_frame:bad_length", "malformed_update_reports",
               "update_frames_in_established", "tail_compared", "reconnect_after_close", "coalesced_bursts"]
 
@@ -731,6 +746,8 @@ class HostileProfile(BaseProfile):
         cfg["late_close"] = rng.chance(0.3)
         cfg["refuse_first_reconnect"] = rng.chance(0.4)
         cfg["next_session_tail"] = rng.chance(0.5)
+        cfg["hfail_at"] = rng.pick([1, 1, 2, 3]) if rng.chance(0.2) else None
+        cfg["hqueue"] = [rng.pick(["update", "update", "notification"]), rng.randrange(1, 9)] if rng.chance(0.15) else None
         return cfg
 
     def new_ctx(self, cfg, tier):
